@@ -16,7 +16,7 @@ func (c02) Size(tier string) Size {
 	if tier == "thorough" {
 		return Size{Batches: 32, Cases: 6500}
 	}
-	return Size{Batches: 8, Cases: 700}
+	return Size{Batches: 16, Cases: 1500}
 }
 func (c02) Rule() string {
 	return "case = document spec over a random schema: primary data nil / one resource / Resources (mixed types) / SoftCollection / WrapperCollection of 0..n / Identifier / Identifiers, 0..n included resources of any type, meta trees from a JSON value generator, 0..4 error objects with any subset of the eight members, any prefix, any field selection and relationship-data request; MarshalDocument then UnmarshalDocument against the same schema. Oracle compares the returned document with the SPEC: kind of primary data, (type,id) sequence, selected field values (C01's value semantics), included as a multiset of (type,id) with equal selected values, meta JSON-equal by exact rational value (empty == absent), errors member by member in order and Data == nil. Non-trivial = >= 2 resources overall, or an error with >= 2 members, or meta of depth >= 2; distinct = spec hash."
